@@ -259,3 +259,29 @@ class Spec:
                 continue
             st.extend(self.succs(b))
         return seen
+
+
+def fold_const(defs, op, depth=0):
+    """value of an operand that is a compile-time constant built from literals (1 << 8, A | B, casts, copies)"""
+    c = const_of(op)
+    if c is not None:
+        return c
+    if depth > 8 or op[0] not in ("copy", "move") or [e for e in op[1]["p"] if e != "deref"]:
+        return None
+    d = defs.single(op[1]["l"])
+    if d is None or d[0] == "call":
+        return None
+    rv = d[2][2]
+    if rv[0] == "use":
+        return fold_const(defs, rv[1], depth + 1)
+    if rv[0] == "cast" and isinstance(rv[2], list):
+        return fold_const(defs, rv[2], depth + 1)
+    if rv[0] == "bin":
+        a = fold_const(defs, rv[2], depth + 1)
+        b = fold_const(defs, rv[3], depth + 1)
+        if a is None or b is None:
+            return None
+        f = {"Shl": lambda: a << b, "Shr": lambda: a >> b, "BitOr": lambda: a | b, "BitAnd": lambda: a & b, "BitXor": lambda: a ^ b,
+             "Add": lambda: a + b, "Sub": lambda: a - b, "Mul": lambda: a * b}.get(rv[1])
+        return f() if f else None
+    return None
